@@ -166,6 +166,8 @@ def h_assign(ctx, skeleton, obj, param, kind, grouped=None):
     if kind == "sign":
         if param not in cls.attributes_that_can_have_negative_values():
             ctx.holds(v >= 0, f"{lab}: an accepted assignment is not negative")
+        else:
+            ctx.require(True, f"{lab}: negative values are meaningful for this attribute")
     else:
         ctx.require(False, f"{lab}: invalid value refused on assignment", "accepted")
 
